@@ -1014,7 +1014,7 @@ func dedupStrings(in []string) []string {
 
 var reLocalNames = regexp.MustCompile(`(alloc|P):[A-Za-z0-9_]+`)
 
-func normD4(k string) string { return reLocalNames.ReplaceAllString(k, "$1:_") }
+func normD4(k string) string { return normConstruct(reLocalNames.ReplaceAllString(k, "$1:_")) }
 
 
 // nilablePtrResult: index of a pointer-typed result for which some return of fn yields the nil constant (-1 if none).
